@@ -113,8 +113,10 @@ def main():
             meta = json.load(open(mp))
         except Exception:
             meta = {"raw": open(mp).read()[:2000]}
-    if patchname != "patch.diff" and "second_mutation" in meta:
-        meta = dict(meta["second_mutation"], property=meta.get("property"))
+    if patchname != "patch.diff":
+        sk = [k for k in meta if k.startswith("second")]
+        if sk and isinstance(meta[sk[0]], dict):
+            meta = dict(meta[sk[0]], property=meta.get("property"))
     meta["evaluation"] = res
     meta["detected_by"] = [p for p, r in res["checks"].items() if r["exit"] == 1]
     json.dump(meta, open(os.path.join(dst, "meta.json"), "w"), indent=1)
